@@ -5,3 +5,5 @@ pub assume_specification<T: Clone>[ <[T]>::to_vec ](s: &[T]) -> (r: Vec<T>)
     ensures r@ == s@;
 pub assume_specification<T>[ Option::<T>::or ](a: Option<T>, b: Option<T>) -> (r: Option<T>)
     ensures r == (if a is Some { a } else { b });
+pub assume_specification<T, E>[ Result::<T, E>::unwrap_or ](a: Result<T, E>, d: T) -> (r: T)
+    ensures r == (match a { Ok(x) => x, Err(_) => d });
